@@ -128,11 +128,17 @@ impl<'a> ZodSchemaBuilder<'a> {
 
         let mut result = schema.to_string();
 
+        // email(message = "...") / url(message = "...") carry their message too
+        let format_message = val
+            .custom_message
+            .as_ref()
+            .map(|msg| format!("{{ message: \"{}\" }}", escape_js_string(msg)))
+            .unwrap_or_default();
         if val.email {
-            result.push_str(".email()");
+            result.push_str(&format!(".email({})", format_message));
         }
         if val.url {
-            result.push_str(".url()");
+            result.push_str(&format!(".url({})", format_message));
         }
 
         result = self.apply_length_validator(&result, validator, skip_validation);
